@@ -184,14 +184,22 @@ def gen_meta(rng, pf):
             "LICENSE": "GPL-2"}
 
 
-def gen_scenario(rng, kind):
+def gen_scenario(rng, kind, variant=None):
+    """variant (replace kinds): "same" = re-install of the same version, "upgrade" = another
+    version, "revision" = 1.0 <-> 1.0-r0 (equal versions for install_or_replace, two file names)"""
     cat = rng.choice(["c", "app-misc", "dev-x"])
     name = rng.choice(["p", "foo", "q+x"])
     v1, v2 = rng.sample(["1", "1.0", "2.3.4", "10", "1.0-r1"], 2)
     sc = {"kind": kind, "cat": cat, "pre": [], "junk": [], "stale": False}
+    if kind in ("vreplace", "breplace"):
+        if variant is None:
+            variant = rng.choice(["same", "upgrade", "revision"] if kind == "breplace" else ["same", "upgrade", "upgrade"])
+        if variant == "same":
+            v2 = v1
+        elif variant == "revision":
+            v1, v2 = rng.choice([("1.0", "1.0-r0"), ("1.0-r0", "1.0"), ("2-r0", "2")])
+        sc["variant"] = variant
     old, new = f"{name}-{v1}", f"{name}-{v2}"
-    if kind in ("vreplace", "breplace") and (kind == "breplace" or rng.random() < 0.35):
-        new = old                                   # re-install of the same version
     if kind in ("vinstall", "vreplace", "binstall", "breplace"):
         sc["pf"] = new
         sc["new_meta"] = gen_meta(rng, new)
@@ -514,6 +522,13 @@ def k_replace_neither(ex):
             and not ex["old_listed"] and not ex["new_listed"])
 
 
+def k_bin_keeps_old(ex):
+    """binpkg replace whose old and new tarball names differ (upgrade, or 1.0 vs 1.0-r0): the completed
+    operation never removes the old tarball, a fresh view lists both"""
+    return ex["kind"] == "breplace" and ex["old"] != ex["new"] and ex["old_listed"] and ex["new_listed"] \
+        and ex.get("completed", False)
+
+
 CLASSES = [("vdb-rmtree-partial", k_rmtree_partial), ("vdb-replace-neither", k_replace_neither)]
 
 
@@ -526,7 +541,7 @@ class Failed(Exception):
     """a property failure found while setting a scenario up"""
 
 
-def run_scenario(chk, work, sc, max_points=None):
+def run_scenario(chk, work, sc, max_points=None, keep_all=False):
     """-> dict(model input, ops, idx, views[k], snaps{k: snap}, findings[], bad[])"""
     w = World(work, sc)
     view_of = (lambda loc: (vdb_view(loc), [])) if w.is_vdb else bin_view
@@ -599,6 +614,8 @@ def run_scenario(chk, work, sc, max_points=None):
         for i, c in enumerate(ref.trace):
             if c.kind in ("rename", "unlink", "rmdir"):
                 keep.update((i, min(i + 1, n - 1)))
+            elif keep_all and not (c.kind == "write" and c.cpaths[0] and c.cpaths[0][-1] == ".update.Packages"):
+                keep.add(i)
         rest = [i for i in points if i not in keep]
         keep.update(chk.rng.sample(rest, min(len(rest), max_points)))
         points = sorted(keep)
@@ -679,8 +696,10 @@ def judge(chk, res):
             if pred(ex) and chk.known_finding(cid, ex):
                 break
         else:
-            bad.append({"what": "the fresh view after the crash is neither the old nor the new state",
-                        "scenario": sc, "detail": ex, "view": v, "old_view": v0, "new_view": vn})
+            what = "the fresh view after the crash is neither the old nor the new state"
+            if "old" in sc and "pf" in sc and not ex["old_listed"] and not ex["new_listed"]:
+                what = "after the crash NO version of the replaced package is listed (neither old nor new)"
+            bad.append({"what": what, "scenario": sc, "detail": ex, "view": v, "old_view": v0, "new_view": vn})
     # the completed state is the NEW state
     if isinstance(vn, Err):
         bad.append({"what": "the repository cannot be listed after the completed update", "scenario": sc})
@@ -700,19 +719,29 @@ def judge(chk, res):
                         bad.append({"what": f"{key} of the installed package is not the new package's",
                                     "got": vals[key], "scenario": sc})
         if "old" in sc and sc.get("old") != sc.get("pf") and listed(vn, sc["cat"], sc["old"]):
-            bad.append({"what": "the removed package is still listed after completion", "scenario": sc})
+            ex = {"kind": sc["kind"], "cat": sc["cat"], "old": sc["old"], "new": sc.get("pf"), "completed": True,
+                  "old_listed": True, "new_listed": listed(vn, sc["cat"], sc.get("pf")),
+                  "variant": sc.get("variant")}
+            if not (k_bin_keeps_old(ex) and chk.known_finding("binpkg-replace-keeps-old", ex)):
+                bad.append({"what": "the removed package is still listed after completion", "scenario": sc})
     return bad
 
 
 # --------------------------------------------------------------------------- main
-QUICK = ["vinstall", "vreplace", "vuninstall", "binstall", "breplace", "buninstall"]
+QUICK = [("vinstall", None), ("vreplace", None), ("vuninstall", None), ("binstall", None),
+         ("breplace", "same"), ("buninstall", None), ("breplace", "other")]
 
 
 def scenarios(chk):
     kinds = list(QUICK)
     extra = chk.n(0, 25)
-    kinds += [chk.rng.choice(list(KINDS)) for _ in range(extra)]
-    return [gen_scenario(chk.rng, k) for k in kinds]
+    kinds += [(chk.rng.choice(list(KINDS)), None) for _ in range(extra)]
+    out = []
+    for k, var in kinds:
+        if var == "other":
+            var = chk.rng.choice(["upgrade", "revision"])
+        out.append(gen_scenario(chk.rng, k, var))
+    return out
 
 
 def main(chk: Check):
@@ -737,7 +766,10 @@ def main(chk: Check):
             wdir = os.path.join(work, f"s{i}")
             os.makedirs(wdir)
             try:
-                res = run_scenario(chk, wdir, sc, max_points=None if chk.thorough else 6)
+                # a binpkg replace under another file name: every call is a crash point also in quick
+                # (but for the Packages-cache data writes after the commit, which are sampled)
+                other = sc["kind"] == "breplace" and sc.get("old") != sc.get("pf")
+                res = run_scenario(chk, wdir, sc, max_points=None if chk.thorough else 6, keep_all=other)
             except Broken as e:
                 chk.violation("correspondence", {"what": str(e), "scenario": sc}, no_input=True)
                 continue
